@@ -2144,6 +2144,7 @@ impl Compiler {
         // Param properties: (name, value_reg, needs_free)
         // needs_free is true for registers allocated for default values
         let mut param_properties: Vec<(JsString, u8, bool)> = Vec::new();
+        let mut rest_param = None;
 
         for (idx, param) in ctor.params.iter().enumerate() {
             let arg_reg = idx as u8;
@@ -2165,6 +2166,8 @@ impl Compiler {
                     }
                 }
                 crate::ast::Pattern::Rest(rest) => {
+                    // The caller collects the remaining arguments into an array for this register
+                    rest_param = Some(idx);
                     if let crate::ast::Pattern::Identifier(id) = &*rest.argument {
                         param_names.push(id.name.cheap_clone());
                         let name_idx = func_compiler.builder.add_string(id.name.cheap_clone())?;
@@ -2285,7 +2288,7 @@ impl Compiler {
             name,
             param_count: ctor.params.len(),
             param_names,
-            rest_param: None,
+            rest_param,
             is_generator: false,
             is_async: false,
             is_arrow: false,
